@@ -71,6 +71,32 @@ def cases(draw):
     return (sess, k, toks, pre)
 
 
+LIMIT_TOKS = [('int', 5), ('hex', b'\xaa\xbb', ''), ('op', 'OP_1', 0x51), ('op', '0', 0x00), ('op', 'OP_DUP', 0x76), ('op', 'OP_2DUP', 0x6e), ('op', 'OP_3DUP', 0x6f), ('op', 'OP_DEPTH', 0x74),
+              ('op', 'OP_OVER', 0x78), ('op', 'OP_TUCK', 0x7d), ('op', 'OP_DROP', 0x75), ('op', 'OP_TOALTSTACK', 0x6b), ('op', 'OP_FROMALTSTACK', 0x6c), ('op', 'OP_IFDUP', 0x73), ('op', 'OP_SIZE', 0x82),
+              ('op', 'OP_NOP', 0x61), ('op', 'OP_NOP', 0x61), ('op', 'OP_VERIFY', 0x69), ('op', 'OP_1ADD', 0x8b), ('op', 'OP_2OVER', 0x70), ('op', 'OP_1NEGATE', 0x4f)]
+
+
+@st.composite
+def limit_cases(draw):
+    """exec at a resource boundary of the session: the stacks hold 997..1000 items (a push / OP_DUP / OP_2DUP at the limit fails AFTER it has pushed), or
+    198..201 operations have been counted (the next counted operation is the one too many) - what a failing exec leaves behind shows only here"""
+    sv = draw(st.sampled_from(G.SIGVERS))
+    if draw(st.booleans()):
+        n = draw(st.sampled_from([997, 998, 999, 999, 1000, 1000]))
+        nalt = draw(st.sampled_from([0, 0, 1, 3]))
+        script = bytes([0x6b]) * nalt + b'\x61\x61'
+        stack = [bytes([1 + (i % 5)]) for i in range(n)]
+        k = nalt + draw(st.integers(0, 1))
+    else:
+        n = draw(st.sampled_from([198, 199, 199, 200, 200, 201]))
+        script = b'\x51' + b'\x61' * n + b'\x51'
+        stack = [b'\x01', b'\x02']
+        k = 1 + n
+    toks = draw(st.lists(st.sampled_from(LIMIT_TOKS), min_size=1, max_size=4))
+    pre = draw(st.one_of(st.none(), st.lists(st.sampled_from(LIMIT_TOKS), min_size=1, max_size=3), st.sampled_from([[('op', '0', 0x00), ('op', 'OP_VERIFY', 0x69)], [('op', 'OP_RETURN', 0x6a)]])))
+    return (dict(kind='plain-limits', kw=dict(script=script, stack=stack, flags=draw(st.sampled_from([0, SS.STD])), sv=sv)), k, toks, pre)
+
+
 def _tj(toks):
     return [[t[0], (t[1].hex() if isinstance(t[1], bytes) else t[1])] + list(t[2:]) for t in toks]
 
@@ -253,7 +279,19 @@ def noop_cases(draw):
 
 def noop_json(case):
     sess, k, toks = case
-    return dict(session=SS.to_json(sess) if hasattr(SS, 'to_json') else {a: (b.hex() if isinstance(b, bytes) else b) for a, b in sess['kw'].items() if not isinstance(b, list)}, kind=sess['kind'], k=k, tokens=_tj(toks))
+    return dict(session={a: (b.hex() if isinstance(b, (bytes, bytearray)) else ([x.hex() for x in b] if isinstance(b, list) else b)) for a, b in sess['kw'].items()}, kind=sess['kind'], k=k, tokens=_tj(toks))
+
+
+def noop_from_json(j):
+    kw = {}
+    for a, v in j['session'].items():
+        if a in ('script', 'succ'):
+            kw[a] = bytes.fromhex(v)
+        elif a == 'stack':
+            kw[a] = [bytes.fromhex(x) for x in v]
+        else:
+            kw[a] = v
+    return (dict(kw=kw, kind=j['kind']), j['k'], [tuple([t[0], bytes.fromhex(t[1]) if t[0] == 'hex' else t[1]] + t[2:]) for t in j['tokens']])
 
 
 def check_noop(case, ctx, h=None):
@@ -291,6 +329,11 @@ def check_noop(case, ctx, h=None):
         if ex['acc'] or ex['err'] != R.ERR['OP_CODESEPARATOR']:
             raise Violation(case, 'exec of a code separator in a legacy session under CONST_SCRIPTCODE: %r' % (ex['err'] or 'accepted'), observed=ex, expected=R.ERR['OP_CODESEPARATOR'])
         return
+    if R.ERR['OP_COUNT'] in (r.get('err'), base.get('err'), ex.get('err')):
+        # the operations of the phrase are counted like script operations (C16's differential campaign checks the count): a session that runs into the
+        # 201-operation limit does so earlier with the exec than without it - "neutral" is about the stacks, not about the budget
+        ctx.count('noop-exec:operation-limit-reached')
+        return
     if not ex['acc']:
         if pre.get('done'):
             return
@@ -307,20 +350,27 @@ def w_noop(ctx, wid, seed, examples):
     core.hyp_campaign(ctx, 'exec-noop', noop_cases(), check_noop, examples, seed, noop_json)
 
 
+def w_limits(ctx, wid, seed, examples):
+    core.hyp_campaign(ctx, 'exec-at-limits', limit_cases(), check_case, examples, seed, case_json)
+
+
 def w_exec(ctx, wid, seed, examples):
     core.hyp_campaign(ctx, 'exec', cases(), check_case, examples, seed, case_json)
 
 
 def run(tier, t0):
     n = 1500 if tier == 'quick' else 40000
-    m = core.parallel(PID, [(w_exec, dict(examples=n)) for _ in range(core.WORKERS)] + [(w_noop, dict(examples=n // 3)) for _ in range(max(2, core.WORKERS // 4))])
+    m = core.parallel(PID, [(w_exec, dict(examples=n)) for _ in range(core.WORKERS)] + [(w_noop, dict(examples=n // 3)) for _ in range(max(2, core.WORKERS // 4))] + [(w_limits, dict(examples=n // 4)) for _ in range(2)])
     return core.finish(PID, tier, m, RULE, t0, min_nontrivial=1000 if tier == 'quick' else 50000,
                        assumptions=['reference interpreter (vf/ref/script.py) on the pre-state read from the harness dump', 'token grammar of Instance::eval: opcode names, non-zero canonical decimals, bare even-length hex; a hex token means the minimal-form push of those bytes'])
 
 
 def replay(rec):
-    case = case_from_json(rec['case'])
     try:
+        if rec.get('campaign') == 'exec-noop':
+            check_noop(noop_from_json(rec['case']), core.Ctx(PID))
+            return True, 'ok'
+        case = case_from_json(rec['case'])
         check_case(case, core.Ctx(PID))
     except Violation as v:
         return False, 'still failing: %s\n  expected %r\n  observed %r' % (v.why, v.expected, v.observed)
